@@ -742,4 +742,104 @@ theorem digestLinW_geometry (g : Geometry) {w : Nat → Char} {n : Nat}
     congr 1; omega
   · rw [triple_concat _ _ (by rw [window_length]; exact h2)]
 
+/-! ### inside the quantifier (no coincident cuts) the resolution of ties is immaterial -/
+
+theorem dist_eq_zero {n a b : Nat} (ha : a < n) (hb : b < n) (h : dist n a b = 0) : a = b := by
+  rcases Nat.lt_or_ge b a with hlt | hge
+  · rw [dist_of_gt ha hlt] at h; omega
+  · rw [dist_of_le hb hge] at h; omega
+
+theorem dist_inj_right {n c x y : Nat} (hc : c < n) (hx : x < n) (hy : y < n) (h : dist n c x = dist n c y) : x = y := by
+  rcases Nat.lt_or_ge x c with hxc | hxc <;> rcases Nat.lt_or_ge y c with hyc | hyc
+  · rw [dist_of_gt hc hxc, dist_of_gt hc hyc] at h; omega
+  · rw [dist_of_gt hc hxc, dist_of_le hy hyc] at h; omega
+  · rw [dist_of_le hx hxc, dist_of_gt hc hyc] at h; omega
+  · rw [dist_of_le hx hxc, dist_of_le hy hyc] at h; omega
+
+theorem stretchAlt_eq {n : Nat} {fs rs : List Nat} {c : Nat} (hfs : ∀ a ∈ fs, a < n) (hrs : ∀ a ∈ rs, a < n)
+    (hc : c ∈ fs) (hno : ∀ f ∈ fs, f ∉ rs) : stretchAlt n fs rs c = stretch n fs rs c := by
+  unfold stretchAlt stretch
+  cases hm : (rs.map (dist n c)).min? with
+  | none => rfl
+  | some d =>
+    have hd := List.min?_eq_some_iff.1 hm
+    obtain ⟨r, hr, hrd⟩ := List.mem_map.1 hd.1
+    have hcn := hfs c hc
+    have hd0 : (d == 0) = false := by
+      rw [beq_eq_false_iff_ne]
+      intro h0
+      rw [h0] at hrd
+      have := dist_eq_zero hcn (hrs r hr) hrd
+      exact hno c hc (this ▸ hr)
+    simp only [hd0, Bool.false_eq_true, if_false]
+    have hiff : ((fs.filter (· != c)).all fun c' => decide (d ≤ dist n c c')) =
+        ((fs.filter (· != c)).all fun c' => decide (d < dist n c c')) := by
+      rw [Bool.eq_iff_iff]
+      simp only [List.all_eq_true, List.mem_filter, decide_eq_true_eq, and_imp]
+      constructor
+      · intro H c' hc' hne
+        have hle := H c' hc' hne
+        rcases Nat.lt_or_eq_of_le hle with hlt | heq
+        · exact hlt
+        · exfalso
+          rw [← hrd] at heq
+          have := dist_inj_right hcn (hrs r hr) (hfs c' hc') heq
+          exact hno c' hc' (this ▸ hr)
+      · intro H c' hc' hne
+        exact Nat.le_of_lt (H c' hc' hne)
+    rw [hiff]
+
+/-- **tie_free (circular)**: on a layout without coincident forward/reverse cuts, resolving both ties
+the other way gives the same digestion -/
+theorem digestAltW_eq (g : Geometry) {w : Nat → Char} {n : Nat} (hn : 0 < n) (h : noCoincident g w n = true) :
+    digestAltW g w n = digestW g w n := by
+  unfold digestAltW digestW
+  simp only [noCoincident, List.all_eq_true, Bool.not_eq_true', List.contains_eq_mem, decide_eq_false_iff_not] at h
+  apply List.filterMap_congr
+  intro c hc
+  rw [stretchAlt_eq (fun a ha => mem_fwdCuts_lt g hn ha) (fun a ha => mem_revCuts_lt g hn ha) hc h]
+
+theorem linStretchAlt_eq {fs rs : List Int} {c : Int} (hc : c ∈ fs) (hno : ∀ f ∈ fs, f ∉ rs) :
+    linStretchAlt fs rs c = linStretch fs rs c := by
+  unfold linStretchAlt linStretch
+  have hfilt : rs.filter (c < ·) = rs.filter (c ≤ ·) := by
+    apply List.filter_congr
+    intro r hr
+    have hne : r ≠ c := fun e => hno c hc (e ▸ hr)
+    rw [Bool.eq_iff_iff]
+    simp only [decide_eq_true_eq]
+    omega
+  rw [hfilt]
+  cases hm : ((rs.filter (c ≤ ·)).map fun r => (r - c).toNat).min? with
+  | none => rfl
+  | some d =>
+    have hd := List.min?_eq_some_iff.1 hm
+    obtain ⟨r, hr, hrd⟩ := List.mem_map.1 hd.1
+    obtain ⟨hr1, hr2⟩ := List.mem_filter.1 hr
+    have hcr : c ≤ r := by simpa using hr2
+    have hiff : ((fs.filter (c < ·)).all fun c' => decide ((d : Int) ≤ c' - c)) =
+        ((fs.filter (c < ·)).all fun c' => decide ((d : Int) < c' - c)) := by
+      rw [Bool.eq_iff_iff]
+      simp only [List.all_eq_true, List.mem_filter, decide_eq_true_eq, and_imp]
+      constructor
+      · intro H c' hc' hlt
+        have hle := H c' hc' hlt
+        rcases Int.lt_or_eq_of_le hle with h1 | heq
+        · exact h1
+        · exfalso
+          have : c' = r := by omega
+          exact hno c' hc' (this ▸ hr1)
+      · intro H c' hc' hlt
+        exact Int.le_of_lt (H c' hc' hlt)
+    simp only [hiff]
+
+/-- **tie_free (linear)** -/
+theorem digestLinAltW_eq (g : Geometry) {w : Nat → Char} {n : Nat} (h : noCoincidentLin g w n = true) :
+    digestLinAltW g w n = digestLinW g w n := by
+  unfold digestLinAltW digestLinW
+  simp only [noCoincidentLin, List.all_eq_true, Bool.not_eq_true', List.contains_eq_mem, decide_eq_false_iff_not] at h
+  apply List.filterMap_congr
+  intro c hc
+  rw [linStretchAlt_eq hc h]
+
 end PolyVerif.Digest
